@@ -4,6 +4,7 @@ From Coq Require Import List ZArith Bool Lia.
 From Coq Require Import Permutation.
 From Verif Require Import lib.Wire c05.ModelLimiter c05.SpecLimiter c05.Proofs_Limiter gen.Consts_c05.
 From Verif Require Import c05.ModelWorker c05.SpecWorker c05.Proofs_Worker.
+From Verif Require Import c05.ModelRanker c05.SpecRanker c05.Proofs_Ranker.
 Import ListNotations.
 Local Open Scope Z_scope.
 
@@ -90,6 +91,28 @@ Theorem c05_addr_handed_once : forall evs, wf_run init_w evs ->
 Proof. exact addr_handed_once_l. Qed.
 Print Assumptions c05_addr_handed_once.
 
+(* ---- DefaultDialRanker ---------------------------------------------------------------
+   for every sort.Slice that permutes its input, every address list and every
+   assignment of the predicates: each input address is returned exactly once, and no
+   delay is negative (the delay constants are re-read from /repo each run).  With
+   ma.Unique in addrsForDial this discharges the NoDup hypothesis of wf_run. *)
+Theorem c05_ranker_is_permutation : forall sortf, (forall l, Permutation (sortf l) l) ->
+  forall addrs,
+  Permutation (map fst (default_ranker sortf addrs)) addrs /\
+  Forall (fun e => 0 <= snd e) (default_ranker sortf addrs).
+Proof. exact default_ranker_spec. Qed.
+Print Assumptions c05_ranker_is_permutation.
+
+Theorem c05_ranker_keeps_nodup : forall sortf, (forall l, Permutation (sortf l) l) ->
+  forall addrs, NoDup (map ra_id addrs) -> NoDup (map ra_id (map fst (default_ranker sortf addrs))).
+Proof. exact default_ranker_nodup. Qed.
+Print Assumptions c05_ranker_keeps_nodup.
+
+(* the sort hypothesis is satisfiable: the stable insertion sort used to run the model *)
+Theorem c05_ranker_sort_instance : forall l, Permutation (sort_score l) l.
+Proof. exact sort_score_perm. Qed.
+Print Assumptions c05_ranker_sort_instance.
+
 (* ---- non-vacuity ----------------------------------------------------------------- *)
 (* the history of the repaired defect reaches a state with a queued live job and
    the FD cap exactly saturated *)
@@ -133,4 +156,9 @@ Example worker_monitor_rejects_double_response :
   monitor_w_case [1; 1; 0; 0; 1; 1; 5; 0;  0; 1; 5; 0; 1; 5; 0; 0; 1; 1; 1; 0;
                   3; 5; 0; 0;  1; 1; 1; 0; 0; 1; 5; 1; 2; 0; 1;
                   2; 1;       1; 1; 1; 0; 0; 1; 5; 1; 2; 0; 1] <> [].
+Proof. vm_compute. discriminate. Qed.
+
+(* the ranker monitor rejects an output that drops an address *)
+Example ranker_monitor_rejects_dropped_address :
+  monitor_r_case [2; 1; 0; 0; 1; 0; 0; 1; 1048577;  2; 0; 0; 1; 0; 1; 0; 262145;  1; 2; 0] <> [].
 Proof. vm_compute. discriminate. Qed.
